@@ -756,15 +756,24 @@ func fontWeight(computer *ComputedStyle, _ pr.KnownProp, _value pr.CssProperty) 
 	case "bold":
 		out = 700
 	case "bolder":
-		parentValue := computer.parentStyle.GetFontWeight().Int
+		parentValue := parentFontWeight(computer)
 		out = fontWeightRelative.bolder[parentValue]
 	case "lighter":
-		parentValue := computer.parentStyle.GetFontWeight().Int
+		parentValue := parentFontWeight(computer)
 		out = fontWeightRelative.lighter[parentValue]
 	default:
 		out = value.Int
 	}
 	return pr.IntString{Int: out}
+}
+
+// parentFontWeight returns the inherited font weight, which is the initial
+// value for the root element.
+func parentFontWeight(computer *ComputedStyle) int {
+	if computer.parentStyle == nil {
+		return 400
+	}
+	return computer.parentStyle.GetFontWeight().Int
 }
 
 // Compute track breadth.
